@@ -132,13 +132,25 @@ def run(ctx):
         # ---------------- dictionaries
         dicts = [{}, {'a': 1, 'b': [1, 2.5, None, True], 'c': {'d': 'x'}}, {'ünïcödé': 'значение', '日本': ['語', 1e-9, -3]},
                  {'nested': {'k%d' % i: [i, str(i), {'z': i * 0.5}] for i in range(20)}}]
+        # strings and keys that look like JSON themselves or carry runs of blanks / exotic blanks: they are data and come back character by character
+        odd = ['slm pitch  [8  \u00b5m]', 'wavelength [515\u00a0nm]', '\u5149\u5b66 [\u3000\u30db\u30ed\u30b0\u30e9\u30e0\u3000]', '[1,   2,\t3]', '{"a":   [1,  2]}', 'a  b   c',
+               ' leading and trailing  ', 'tab\tnewline\nquote"backslash\\', '[ ]', '[]', '[\u2009x\u2009]', ',  :  ', '\u2028line\u2029sep', 'NaN', 'Infinity', '1e5', 'true', 'null']
+        dicts.append({'strings': odd, 'as values': {'k%d' % i: v for i, v in enumerate(odd)}})
+        dicts.append({v: i for i, v in enumerate(odd)})
+        dicts.append({'numbers': [0, -0.0, 1e-300, 1.7976931348623157e308, 2 ** 62, -2 ** 62, 0.1, 1 / 3], 'nested lists': [[1, [2, [3, [4.5, 'x  y']]]], []], 'empty': {'l': [], 'd': {}, 's': ''}})
+        rs = rng
+        alphabet = ['[', ']', '{', '}', ' ', '  ', ',', ':', '"', '\\', '\u00a0', '\u3000', 'a', '1', '\t', '\n', '.']
+        for _ in range(ctx.n(40, 400)):
+            strs = [''.join(rs.choice(alphabet) for _ in range(rs.randint(1, 14))) for _ in range(4)]
+            dicts.append({strs[0]: strs[1], 'list': [strs[2], rs.random(), [strs[3]]]})
         for d in dicts:
             fn = os.path.join(tmp, 'd.json')
             NT.save_dictionary(d, fn)
             back = NT.load_dictionary(fn)
             ctx.case(('dict', repr(d)[:50]), bool(d))
-            if back != d:
-                ctx.violation('dictionary does not read back identically: %r' % (d,), {'dict': repr(d)}, {'fn': 'save_dictionary', 'what': 'roundtrip'})
+            if back != d or repr(back) != repr(d):
+                ctx.violation('dictionary does not read back identically: %r came back as %r' % (d, back) if len(repr(d)) < 300 else 'dictionary does not read back identically: %r'
+                              % (d,), {'dict': repr(d)}, {'fn': 'save_dictionary', 'what': 'roundtrip'})
         # ---------------- text line lists
         texts = [[], [''], ['a'], ['a ', ' b\t', '', 'c  '], ['ünï', '日本語 ', '\tindented'], ['x' * 500, '', ''],
                  # characters that are NOT the line terminator '\n' but that str.splitlines() / universal-newline tricks treat as one:
